@@ -16,20 +16,27 @@ PROP = dict(
         assumptions=['grammar subset: Name/Scope/Device/Method/OpRegion/Field/Mutex/Event/Processor/PowerResource/ThermalZone, '
                      'integer/string/buffer/package data, Store/Return/Add/If/While/calls with 0-7 arguments (forward, backward, nested), '
                      'all name forms, every PkgLength width, 1-3 tables'],
-        level_text='proof (partial). Lean theorems for all inputs: pkglen_roundtrip (all four PkgLength encodings decode to the encoded value and '
-                   'advance exactly), const_roundtrip (integer constants likewise), facts_agree (the generated tables this run saw are the ones the parser model is built on); the '
-                   'lexical layer shared with C12 (reader_inv, slices_in_table_partial, opcode_table_sane) applies to every decoder used. '
-                   'The property itself - parseAML(encode p) succeeds and nsOf = namespaceOf p - is NOT a theorem: it is decided for every '
-                   'generated program by the executable specification namespaceOf (ACPI scoping rules written directly) and the '
-                   'differential oracle on the real parser, and it is false today for five program shapes (known findings).',
+        level_text='proof (partial). Lean theorems for all inputs: pkglen_roundtrip (all four PkgLength encodings decode to the encoded value '
+                   'and advance exactly), const_roundtrip (integer constants likewise), facts_agree (the generated tables this run saw are the '
+                   'ones the parser model is built on); kernel-evaluated witness theorems on the parser model for the deterministic boundary '
+                   'programs: d6_counterexample, name_caret_counterexample, call_arg_expression_counterexample, '
+                   'if_empty_body_counterexample, while_nested_block_counterexample (the property is false there: known findings), '
+                   'witnesses_well_scoped, repaired_and_positive_witnesses (Scope(\\), call operand inside While, forward/backward/nested '
+                   'calls: model namespace = namespaceOf). The lexical layer shared with C12 (reader_inv, lex_slices_in_table, '
+                   'opcode_table_sane) and C12.slices_in_table apply to every table parsed. The property itself - parseAML(encode p) '
+                   'succeeds and nsOf = namespaceOf p for every program - is NOT a theorem: it is decided for every generated program by the '
+                   'executable specification namespaceOf (ACPI scoping rules written directly) and the differential oracle on the real '
+                   'parser after every table load, and it is false today for five program shapes (known findings).',
         level_note='Partial: no whole-parser theorem (parse_encode, flat_decls_partial, call_arity_partial and the name/string round trips '
-                   'are not proved; pkglen_roundtrip, const_roundtrip and the shared lexical safety theorems are). Known findings (reported as '
-                   'KNOWN-FINDING, each with a witness in the deterministic boundary list): multi-segment paths through a Device are '
-                   'rejected (D6); ^-prefixed declarations inside a Device land one level too low; a call whose argument is an '
-                   'expression gets the wrong arguments; an If without object-creating body fails/swallows the next statement; inside '
-                   'a While a nested If/While drops the statements after it. About 70% of the generated cases avoid these shapes and must pass the whole oracle. '
-                   'Trusted: Lean kernel (+ propext, Classical.choice, Quot.sound), namespaceOf as the reading of the ACPI scoping '
-                   'rules, the generator/encoder twins (cross-checked), the harness; three defects found here were repaired in /repo '
-                   '(8-bit MultiNamePath length; prefix+NullName names such as Scope(\\) rejected; call operands of expressions '
-                   'inside While unresolvable).',
+                   'are not proved). Known findings (reported as KNOWN-FINDING, each with a witness in the deterministic boundary list and '
+                   'a Lean counterexample theorem): multi-segment paths through a Device are rejected (D6); ^-prefixed declarations inside '
+                   'a Device land one level too low; a call whose argument is an expression gets the wrong arguments; an If without '
+                   'object-creating body fails/swallows the next statement; inside a While a nested If/While drops the statements after it. '
+                   'About 70% of the generated cases avoid these shapes and must pass the whole oracle. Generator coverage: every named '
+                   'kind incl. IndexField/BankField, names from the whole legal alphabet (leading A/Z/_), 1-3 tables through ONE parser with '
+                   'the oracle after every load, forward references in later tables, 3-pass resolve chains (no known-free program needing 4 '
+                   'passes exists in the subset: absolute names deeper than 2 hit D6). Trusted: Lean kernel (+ propext, Classical.choice, '
+                   'Quot.sound), namespaceOf as the reading of the ACPI scoping rules, the generator/encoder twins (cross-checked), the '
+                   'harness; three defects found here were repaired in /repo (8-bit MultiNamePath length; prefix+NullName names such as '
+                   'Scope(\\) rejected; call operands of expressions inside While unresolvable).',
 )
